@@ -86,6 +86,14 @@ def resp(status=200, auth="genuine", body=None, xra=None, wrap="plain", prefix=F
     return a
 
 
+ETAG_RAW = ['"', '""', 'W/"', 'W/""', 'W/', '', ':', '::', '":"', 'W/":"', 'a:b', 'W/"a:b', '"a:b', 'a:b"', ' ', '\t:', 'é:é',
+            '"' + 'ab' * 40 + ':' + 'cd' * 32 + '"', ':' + 'cd' * 32, 'ab' * 35 + ':']
+
+
+def etag_raw(rng):
+    return [b for b in rng.choice(ETAG_RAW).encode("utf-8") if b >= 32 or b == 9]
+
+
 GARBAGE = ["empty", "notjson", "trunc", "noresp", "badtype", "noapp", "binary", "array"]
 FORGERIES = ["forged", "tampered", "unsigned", "wrongkey", "replay", "badhash"]
 BAD_STATUS = [400, 403, 404, 429, 500, 502, 503, 301, 304, 100, 199, 300, 600]
@@ -107,8 +115,11 @@ def rand_uc_answer(rng, app_ids, cup, terminal_p=0.5):
     if r < 0.50 and cup:
         f = rng.choice(FORGERIES)
         body = {"doc": rand_doc(rng, app_ids)} if rng.random() < 0.7 else {"garbage": rng.choice(GARBAGE)}
-        return resp(rng.choice([200, 200, 503]), auth=f, xra=rand_xra(rng, 0.6), body=body, wrap=wrap,
-                    j=rng.randint(1, 3))
+        a = resp(rng.choice([200, 200, 503]), auth=f, xra=rand_xra(rng, 0.6), body=body, wrap=wrap,
+                 j=rng.randint(1, 3))
+        if rng.random() < 0.3:
+            a["etag_raw"] = etag_raw(rng)
+        return a
     if r < 0.60:
         return resp(rng.choice([200, 201, 299]), xra=xra, body={"garbage": rng.choice(GARBAGE)}, wrap=wrap)
     return resp(rng.choice([200, 200, 200, 204]), xra=xra, body={"doc": rand_doc(rng, app_ids)}, wrap=wrap,
@@ -124,7 +135,10 @@ def rand_report_answer(rng, cup):
     if r < 0.8:
         return resp(rng.choice(BAD_STATUS), xra=rand_xra(rng), body={"garbage": "empty"})
     if r < 0.9 and cup:
-        return resp(200, auth=rng.choice(FORGERIES), xra=rand_xra(rng, 0.6), body={"garbage": "noresp"}, j=1)
+        a = resp(200, auth=rng.choice(FORGERIES), xra=rand_xra(rng, 0.6), body={"garbage": "noresp"}, j=1)
+        if rng.random() < 0.3:
+            a["etag_raw"] = etag_raw(rng)
+        return a
     return resp(200, xra=rand_xra(rng, 0.8), body={"garbage": rng.choice(GARBAGE)})
 
 
@@ -338,7 +352,7 @@ WEIRD_URLS = ["not a url", "", "http://[::1]:8080/x?y=1", "http://h/ path", "htt
               "/relative", "http://h/a?b#c", "http://user@h/x", "h:1"]
 
 
-def robust_scenario(rng, sid):
+def robust_scenario(rng, sid, idx=0):
     """C14: extreme stored values, wrong types, clock jumps, odd URLs, arbitrary statuses / headers / bodies."""
     sc = history_scenario(rng, sid, rounds=3, crashes=rng.choice([0, 1]), clock_p=0.8) if rng.random() < 0.6 \
         else oneshot_scenario(rng, sid)
@@ -361,6 +375,12 @@ def robust_scenario(rng, sid):
     if rng.random() < 0.25:
         sc["cfg"]["url"] = rng.choice(WEIRD_URLS)
     sc["cfg"]["robust"] = True
+    # every degenerate ETag text is served at least once per run (round robin over the pool), on the first update check
+    if "cup" in sc["cfg"] and idx % 2 == 0:
+        raw = ETAG_RAW[(idx // 2) % len(ETAG_RAW)]
+        a = resp(rng.choice([200, 503]), auth="forged", body={"garbage": "noresp"}, xra=rand_xra(rng, 0.5))
+        a["etag_raw"] = [b for b in raw.encode("utf-8") if b >= 32 or b == 9]
+        sc["ans"]["http.uc#1"] = a
     return sc
 
 
@@ -398,7 +418,7 @@ def batch(seed, n, kinds=("oneshot", "start")):
         elif kind == "history":
             out.append(history_scenario(rng, sid))
         elif kind == "robust":
-            out.append(robust_scenario(rng, sid))
+            out.append(robust_scenario(rng, sid, i))
         else:
             out.append(start_scenario(rng, sid))
     return out
